@@ -195,8 +195,19 @@ def run_real(drv, cases, env=None, noscreen=False):
     return runs
 
 
+_SESSION = core.DriverSession()
+import atexit
+atexit.register(_SESSION.close)
+
+
 def run_model(runs, switches=("code",), timeout=7200):
-    """ask the Lean driver for the block of every run under every named switch setting"""
+    """ask the Lean driver for the block of every run under every named switch setting.  One driver process serves every call of a
+    check (core.DriverSession): the driver is single-threaded and building the (5,5) engine costs 20 s, which several processes
+    side by side would each pay again."""
+    return _run_model_chunk(list(runs), switches, timeout)
+
+
+def _run_model_chunk(runs, switches=("code",), timeout=7200):
     lines = []
     for r in runs:
         for l in r.req:
@@ -205,7 +216,7 @@ def run_model(runs, switches=("code",), timeout=7200):
                     lines.append("sw " + (l[3:] if s == "as-run" else SW[s]))
             else:
                 lines.append(l)
-    out = [l for l in core.run_driver(lines, timeout=timeout) if l.startswith("V ") or l.startswith("bad") or l.startswith("S ") or l == "S"]
+    out = [l for l in _SESSION.run(lines, timeout=timeout) if l.startswith("V ") or l.startswith("bad") or l.startswith("S ") or l == "S"]
     k = 0
     for r in runs:
         if "screens" in r.req and k < len(out) and out[k].startswith("S"):
